@@ -126,3 +126,69 @@ def k40(args):
 
 
 HANDLERS = {40: k40}
+
+
+# ---------------------------------------------------------------- K5 validation (tag 41)
+from lnn import Proposition, And as _And
+FACT_BY_BOUNDS = {(1, 1): Fact.TRUE, (0, 0): Fact.FALSE, (0, 1): Fact.UNKNOWN, (1, 0): Fact.CONTRADICTION}
+WORLD_BY_BOUNDS = {(1, 1): World.AXIOM, (0, 0): World.FALSE, (0, 1): World.OPEN}
+ECODE = {"TypeError": 4, "IndexError": 3, "Exception": 7}
+
+
+def pyvalue(v, use_world=False):
+    t = v[0]
+    if t == 0:
+        key = (int(sx.q(v[1])), int(sx.q(v[2])))
+        return (WORLD_BY_BOUNDS if use_world and key in WORLD_BY_BOUNDS else FACT_BY_BOUNDS)[key]
+    if t == 1:
+        return bool(v[1])
+    if t == 2:
+        return float(sx.q(v[1]))
+    if t == 3:
+        return (float(sx.q(v[1])), float(sx.q(v[2])))
+    if t == 4:
+        return tuple(0.5 for _ in range(v[1]))
+    if t == 5:
+        return ("a", "b")
+    if t == 6:
+        return {f"c{n + 1}": pyvalue(x) for n, x in enumerate(v[1])}
+    return [1, "x", None, [0.5, 0.5]][v[1] if len(v) > 1 else 0]
+
+
+def k41(args):
+    t, v = args[:2]
+    before = (0.25, 0.75)
+    m = Model()
+    if t in (0, 1):
+        A, B2 = Proposition("A"), Proposition("B")
+        member = _And(A, B2)
+        outsider = _And(A, B2)      # structurally equal, not in the model
+        m.add_knowledge(member)
+        target = member if t == 0 else outsider
+        m.add_data({member: before})
+        probe = lambda: member.get_data().tolist()
+    else:
+        member = Predicate("P")
+        outsider = Predicate("P")
+        m.add_knowledge(member)
+        target = member if t == 2 else outsider
+        m.add_data({member: {"c0": before}})
+        probe = lambda: member.get_data("c0").tolist()[0]
+    val = pyvalue(v, use_world=(len(v) > 3 and v[3] == 1))
+    code, stored = 0, []
+    try:
+        m.add_data({target: val})
+        if t in (0, 1):
+            b = target.get_data().tolist()
+            stored = [[fr(b[0]), fr(b[1])]]
+        else:
+            for n in range(len(v[1])):
+                b = target.get_data(f"c{n + 1}").tolist()[0]
+                stored.append([fr(b[0]), fr(b[1])])
+    except Exception as e:
+        code = ECODE.get(type(e).__name__, 99)
+    p = probe()
+    return [code, stored, [fr(p[0]), fr(p[1])]]
+
+
+HANDLERS[41] = k41
